@@ -828,6 +828,7 @@ def generate(ctx):
         seen.add(json.dumps(c["prog"], sort_keys=True))
     nsteps = sum(len(c["steps"]) for c in cases)
     ctx.count(nsteps, len(seen))
+    ctx.c15_info = f"C15: {len(cases)} programs, {nsteps} operations run on the implementation"
     ctx.cov["rule"] = ("evaluations = operations run on the real code and re-evaluated by the Coq model (build / pop / mutate) "
                        "or judged by the oracle (copies, save/load, value assignment); distinct = distinct concretised programs "
                        "(object constructors + operation list); trivial programs (fewer than 3 objects) are not generated")
@@ -1022,8 +1023,8 @@ def diagnose(ctx, path, idxs, cases):
     txt += "Eval vm_compute in (failing agrees cases).\n"
     ok, out = ctx.coq_eval(txt)
     bad = [idxs[j] for j in common.parse_nat_list(out) if j < len(idxs)]
-    for i in bad[:3]:
-        common.log("disagreeing case", i, json.dumps(cases[i]["prog"])[:1500])
+    for i in bad[:1]:
+        common.log("disagreeing case", i, json.dumps(cases[i]["prog"])[:600])
     return bad
 
 
@@ -1060,7 +1061,7 @@ def oracle(c):
         k = op["op"]
         pre, post = snaps[s["pre"]], snaps[s["post"]]
         where = f"op {c['steps'].index(s)} ({k})"
-        if s.get("live_touched") and k != "mutate":
+        if s.get("live_touched") and k not in ("mutate", "build"):
             return f"{where}: live model(s) {s['live_touched']} changed although the operation did not concern them"
         if k == "build":
             cl, clv = closure_of(pre, s["rn"], s["rv"])
@@ -1100,7 +1101,7 @@ def oracle(c):
                     if any(not post["nodes"][i]["inmodel"] for i in mn):
                         return f"{where}: a model node does not refer to the model"
                 else:
-                    if len(mn) != len([i for i in cl if not _stale_seed(pre, i)]) + 3 + sum(1 for i in cl if pre["nodes"][i]["seed"] and not _stale_seed(pre, i)):
+                    if len(mn) != len([i for i in cl if not _stale_seed(pre, i)]) + 3 + sum(1 for i in cl if pre["nodes"][i]["seed"] and not _stale_seed(pre, i) and not _user_seed(pre, i)):
                         return f"{where}: copy=True model has {len(mn)} nodes, closure has {len(cl)} (+3 model nodes + seeds)"
                     if any(post["nodes"][i]["inmodel"] != pre["nodes"][i]["inmodel"] or post["nodes"][i]["mid"] != pre["nodes"][i]["mid"] for i in cl):
                         return f"{where}: copy=True changed the model membership of an original node"
@@ -1176,6 +1177,8 @@ def oracle(c):
                 for i, n in enumerate(pre["nodes"]):
                     if n["inmodel"] and post["nodes"][i] != n:
                         return f"{where}: the rejected build changed node {n['name']!r} of a live model: {_ndiff(n, post['nodes'][i])}"
+            if s.get("live_touched"):
+                return f"{where}: live model(s) {s['live_touched']} changed by a build that did not concern them"
         elif k == "pop":
             if not s["ok"]:
                 return f"{where}: pop_nodes_and_vars raised {s['err']}"
@@ -1257,6 +1260,12 @@ def _default_proxy(sn, i):
     n = sn["nodes"][i]
     return (n["kind"] == "VarValue" and n["var"] is not None and sn["vars"][n["var"]]["name"] == ""
             and n["name"] == "_var_value" and sn["vars"][n["var"]]["varvalue"] == i)
+
+
+def _user_seed(sn, i):
+    """the node has its own "seed" keyword input (not one left by an earlier build): build_model keeps it and the
+    fresh _model_*_seed node is not connected"""
+    return any(k == "seed" and not _stale_seed(sn, j) for k, j in sn["nodes"][i]["kw"])
 
 
 def _stale_seed(sn, i):
@@ -1352,5 +1361,18 @@ def replay(rp) -> int:
     return 0
 
 
-# run_standard stores whole cases in the replay: keep them small
-_orig_oracle = oracle
+def run(ctx):
+    """run_standard, with the verdict lines guaranteed to start on a fresh line: the shard diagnostics go to
+    stderr through a filter process, and callers that merge the two streams would otherwise see the
+    VIOLATION line glued to the middle of a diagnostic line"""
+    import sys
+    import time
+    orig = ctx.finish
+
+    def finish(*a, **k):
+        sys.stderr.flush()
+        time.sleep(0.5)                      # let the stderr filter drain what was written so far
+        print("\n" + getattr(ctx, "c15_info", "C15"), flush=True)
+        return orig(*a, **k)
+    ctx.finish = finish
+    return common.run_standard(ctx, sys.modules[__name__])
